@@ -6,7 +6,8 @@
    signer — the VM itself is not modelled here; the block the ledger accepts is C06's matter, here the
    conditions a packed prefix satisfies are proved. *)
 From NG Require Import Common.Tactics Admission.Fee Admission.FeeProofs Admission.Admit Admission.AdmitProofs
-  Admission.Conflicts Admission.Refresh Admission.Examples Mempool.Model Mempool.Spec Mempool.Examples.
+  Admission.Conflicts Admission.Refresh Admission.VMScripts Admission.VMFeeProofs Admission.Examples Mempool.Model Mempool.Spec Mempool.Examples.
+From NG Require VM.Model.
 Open Scope N_scope.
 
 (* the checks before the pool pass exactly when every listed condition holds *)
@@ -48,6 +49,65 @@ Theorem C07_fee_exact_multisig : forall base m n, m <> 0 ->
   witness_cost base (m, n) = calc_multisig_pico base m n.
 Proof. exact fee_exact_multisig. Qed.
 Print Assumptions C07_fee_exact_multisig.
+
+(* ---- the same on the executable NeoVM model (VM/Model.v: instruction decoding from BYTES, [step_with], prices
+   from the generated OpcodePrices table), with the standard scripts as the bytes the builders emit
+   (Admission/VMScripts.v) and a handler for System.Crypto.CheckSig / CheckMultisig (ECDSA abstract; interop ids and
+   prices from the generated Interops table, CheckMultisig charging ECDSAVerifyPrice per key as the code does).
+   Limits and consumption in picoGAS; [vm_fuel_multisig m n] = m + n + 5 instructions; limit < 0 = unlimited.
+   The hypothesis m + n + 2 <= MaxStackSize (2048) is needed: the machine holds m signatures, n keys and the two
+   counts on its stack, so 1024-of-1024 faults in the VM whatever the gas. *)
+Theorem C07_fee_exact_sig_on_vm_model : forall ecdsa base limit key sg,
+  (0 <= base)%Z -> Items.zlen key = 33%Z -> Items.zlen sg = 64%Z ->
+  let cost := Z.of_N (calc_sig_pico (Z.to_N base)) in
+  let r := run_with ecdsa (Z.of_N ecdsa_verify_price) 5 (witness_state (sig_invocation sg) (sig_verification key) base limit) in
+  ((limit < 0)%Z \/ (cost <= limit)%Z ->
+     exists s, r = Model.Halted s /\ Model.final_stack s = [Items.IBool (ecdsa key sg)] /\ Model.s_gas s = cost)
+  /\ ((0 <= limit < cost)%Z -> exists g, r = Model.Faulted g).
+Proof. exact fee_exact_sig_on_vm. Qed.
+Print Assumptions C07_fee_exact_sig_on_vm_model.
+
+Theorem C07_fee_exact_multisig_on_vm_model : forall ecdsa base limit keys sigs,
+  (0 <= base)%Z ->
+  Forall (fun k => Items.zlen k = 33%Z) keys -> Forall (fun sg => Items.zlen sg = 64%Z) sigs ->
+  (1 <= Items.zlen sigs <= Items.zlen keys)%Z -> (Items.zlen keys <= 1024)%Z -> (Items.zlen sigs + Items.zlen keys + 2 <= VMLimits.MaxStackSize)%Z ->
+  let m := Items.zlen sigs in let n := Items.zlen keys in
+  let cost := Z.of_N (calc_multisig_pico (Z.to_N base) (Z.to_N m) (Z.to_N n)) in
+  let r := run_with ecdsa (Z.of_N ecdsa_verify_price) (vm_fuel_multisig (length sigs) (length keys))
+             (witness_state (multisig_invocation sigs) (multisig_verification m keys) base limit) in
+  ((limit < 0)%Z \/ (cost <= limit)%Z ->
+     exists s, r = Model.Halted s /\ Model.final_stack s = [Items.IBool (match_sigs ecdsa (rev keys) (rev sigs))]
+               /\ Model.s_gas s = cost)
+  /\ ((0 <= limit < cost)%Z -> exists g, r = Model.Faulted g).
+Proof. exact fee_exact_multisig_on_vm. Qed.
+Print Assumptions C07_fee_exact_multisig_on_vm_model.
+
+(* with the limit in Datoshi as verifyHashAgainstScript sets it (G * ExecFeeFactorMultiplier picoGAS): any
+   G >= fee.Calculate suffices and the consumption rounds up to exactly fee.Calculate; G = fee.Calculate - 1 faults *)
+Theorem C07_multisig_threshold_on_vm_model : forall ecdsa base G keys sigs,
+  (0 <= base)%Z -> (0 <= G)%Z ->
+  Forall (fun k => Items.zlen k = 33%Z) keys -> Forall (fun sg => Items.zlen sg = 64%Z) sigs ->
+  (1 <= Items.zlen sigs <= Items.zlen keys)%Z -> (Items.zlen keys <= 1024)%Z -> (Items.zlen sigs + Items.zlen keys + 2 <= VMLimits.MaxStackSize)%Z ->
+  let m := Items.zlen sigs in let n := Items.zlen keys in
+  let fee := Z.of_N (calc_fee (Z.to_N base) (Z.to_N m, Z.to_N n)) in
+  let r := run_with ecdsa (Z.of_N ecdsa_verify_price) (vm_fuel_multisig (length sigs) (length keys))
+             (witness_state (multisig_invocation sigs) (multisig_verification m keys) base (G * Z.of_N exec_fee_multiplier)) in
+  ((fee <= G)%Z -> exists s, r = Model.Halted s /\ Model.final_stack s = [Items.IBool (match_sigs ecdsa (rev keys) (rev sigs))]
+                        /\ Z.of_N (pico_to_datoshi (Z.to_N (Model.s_gas s))) = fee)
+  /\ (G = (fee - 1)%Z -> exists g, r = Model.Faulted g).
+Proof. exact multisig_threshold_on_vm. Qed.
+Print Assumptions C07_multisig_threshold_on_vm_model.
+
+Theorem C07_sig_threshold_on_vm_model : forall ecdsa base G key sg,
+  (0 <= base)%Z -> (0 <= G)%Z -> Items.zlen key = 33%Z -> Items.zlen sg = 64%Z ->
+  let fee := Z.of_N (calc_fee (Z.to_N base) (0, 0)) in
+  let r := run_with ecdsa (Z.of_N ecdsa_verify_price) 5
+             (witness_state (sig_invocation sg) (sig_verification key) base (G * Z.of_N exec_fee_multiplier)) in
+  ((fee <= G)%Z -> exists s, r = Model.Halted s /\ Model.final_stack s = [Items.IBool (ecdsa key sg)]
+                        /\ Z.of_N (pico_to_datoshi (Z.to_N (Model.s_gas s))) = fee)
+  /\ (G = (fee - 1)%Z -> exists g, r = Model.Faulted g).
+Proof. exact sig_threshold_on_vm. Qed.
+Print Assumptions C07_sig_threshold_on_vm_model.
 
 (* closed forms over the generated price table, for all 1 <= m, n <= 1024 *)
 Theorem C07_calc_sig_closed : forall base, calc_sig_pico base = base * (16 + ecdsa_verify_price).
@@ -146,6 +206,16 @@ Proof. exact pack_short_header_refuted. Qed.
 Print Assumptions C07_pack_short_header_refuted.
 
 (* non-vacuity *)
+Example C07_example_vm_run :
+  let keys := [repeat 1%Z 33; repeat 2%Z 33; repeat 3%Z 33] in
+  let sigs := [repeat 7%Z 64; repeat 8%Z 64] in
+  match run_with (fun _ _ => true) (Z.of_N ecdsa_verify_price) (vm_fuel_multisig 2 3)
+          (witness_state (multisig_invocation sigs) (multisig_verification 2 keys) 300000 (2950380 * 10000)) with
+  | Model.Halted s => Model.final_stack s = [Items.IBool true] /\ Model.s_gas s = 29503800000%Z
+  | _ => False
+  end
+  /\ calc_fee 300000 (2, 3) = 2950380.
+Proof. vm_compute. repeat split; reflexivity. Qed.
 Example C07_example_refresh :
   Forall (op_wf N) [PSubmit N ex_ptx; PBlock N 4; PBlock N 6]
   /\ snd (prun N (fun h => h) true 3 [PSubmit N ex_ptx; PBlock N 4]) = [ex_ptx]
